@@ -129,6 +129,23 @@ def build_plain(scr, kind):
         if p.returncode != 0 or not os.path.exists(exe):
             raise BuildError("the eav tool does not build:\n" + p.stdout.decode(errors="replace")[-3000:])
         return exe
+    elif kind == "cli-idnkit":
+        # the real tool and library built by the repository's Makefiles for the idnkit back end; idnkit itself is not installed, so
+        # IDNKIT_DIR points at a directory holding the stand-in header and a libidnkit.so made of shims/shim_impl.c
+        kit = os.path.join(d, "_idnkit")
+        os.makedirs(os.path.join(kit, "lib")); os.makedirs(os.path.join(kit, "include"))
+        shim = os.path.join(VERIF, "shims")
+        shutil.copytree(os.path.join(shim, "idn"), os.path.join(kit, "include", "idn"))
+        p = subprocess.run([CC, "-shared", "-fPIC", "-O1", "-w", "-I" + shim, os.path.join(shim, "shim_impl.c"), "-lidn2", "-o", os.path.join(kit, "lib", "libidnkit.so")],
+                           stdout=subprocess.PIPE, stderr=subprocess.STDOUT)
+        if p.returncode != 0:
+            raise BuildError("stand-in libidnkit does not build:\n" + p.stdout.decode(errors="replace")[-2000:])
+        p = subprocess.run(["make", "-C", d, "-j4", "CC=" + CC, "CFLAGS=" + SAN, "LDFLAGS=-fsanitize=address,undefined", "FORCE_IDN=idnkit", "IDNKIT_DIR=" + kit],
+                           stdout=subprocess.PIPE, stderr=subprocess.STDOUT)
+        exe = os.path.join(d, "bin/eav")
+        if p.returncode != 0 or not os.path.exists(exe):
+            raise BuildError("the eav tool (idnkit back end) does not build:\n" + p.stdout.decode(errors="replace")[-3000:])
+        return exe
     elif kind == "gcov":
         # one object per source so that the .gcno/.gcda files sit next to each other in d/cov
         cov = os.path.join(d, "cov")
